@@ -1,0 +1,137 @@
+//go:build verif
+
+// Package lime: machine-checked contracts for the verification harness in
+// /verif (tool: limevc). This file is compiled only with -tags=verif; the
+// `//@` blocks are structured comments read by the verifier, the Go functions
+// below them are ghost lemmas that are verified, never called.
+package lime
+
+// verifAssert is a proof obligation inside a lemma; verifAssume an assumption.
+func verifAssert(cond bool) {}
+func verifAssume(cond bool) {}
+
+// ---------------------------------------------------------------------------
+// C11 - replies built from an envelope are correctly correlated and addressed
+// ---------------------------------------------------------------------------
+
+//@ spec fn senderOf(e Envelope) Node = ite(e.PP != Node{}, e.PP, e.From)
+//@ spec fn mediaTypeOf(d Document) MediaType = uninterpreted go: d.MediaType()
+//@ spec fn validMethod(m CommandMethod) bool = m == CommandMethodGet || m == CommandMethodSet || m == CommandMethodDelete || m == CommandMethodSubscribe || m == CommandMethodUnsubscribe || m == CommandMethodObserve || m == CommandMethodMerge
+//@ spec fn validEvent(e NotificationEvent) bool = e == NotificationEventAccepted || e == NotificationEventDispatched || e == NotificationEventReceived || e == NotificationEventConsumed || e == NotificationEventFailed
+//@ spec fn wfCommand(c Command) bool = validMethod(c.Method) && ((c.Resource != nil) == (c.Type != nil)) && (c.Resource != nil ==> *c.Type == mediaTypeOf(c.Resource))
+//@ spec fn wfResponse(r *ResponseCommand) bool = r != nil && wfCommand(r.Command) && r.Status != ""
+//@ spec fn wfNotification(n *Notification) bool = n != nil && validEvent(n.Event)
+
+//@ interface Document
+//@ method Document.MediaType(d) (result)
+//@   pure
+//@   ensures result == mediaTypeOf(d)
+//@   note assumes MediaType() is a function of the document value only
+
+//@ interface Sender
+//@ method Sender.SendResponseCommand(s, ctx, cmd) (err)
+//@   requires [C11] @wf wfResponse(cmd)
+//@   modifies nothing
+
+//@ func (*Envelope).Sender
+//@   props C11
+//@   requires env != nil
+//@   ensures  env.PP != Node{} ==> result == env.PP
+//@   ensures  env.PP == Node{} ==> result == env.From
+//@   ensures  result == senderOf(*env)
+//@   modifies nothing
+
+//@ func (*RequestCommand).SuccessResponse
+//@   props C11
+//@   requires cmd != nil
+//@   ensures  result != nil && fresh(result)
+//@   ensures  result.ID == cmd.ID && result.Method == cmd.Method
+//@   ensures  result.From == cmd.To && result.To == senderOf(cmd.Envelope)
+//@   ensures  result.PP == Node{} && result.Metadata == nil
+//@   ensures  result.Status == CommandStatusSuccess && result.Reason == nil
+//@   ensures  result.Resource == nil && result.Type == nil
+//@   ensures  validMethod(cmd.Method) ==> wfResponse(result)
+//@   modifies nothing
+
+//@ func (*RequestCommand).SuccessResponseWithResource
+//@   props C11
+//@   requires cmd != nil
+//@   ensures  result != nil && fresh(result)
+//@   ensures  result.ID == cmd.ID && result.Method == cmd.Method
+//@   ensures  result.From == cmd.To && result.To == senderOf(cmd.Envelope)
+//@   ensures  result.PP == Node{} && result.Metadata == nil
+//@   ensures  result.Status == CommandStatusSuccess && result.Reason == nil
+//@   ensures  result.Resource == resource
+//@   ensures  @type resource != nil ==> result.Type != nil && *result.Type == mediaTypeOf(resource)
+//@   ensures  resource == nil ==> result.Type == nil
+//@   ensures  @wf validMethod(cmd.Method) ==> wfResponse(result)
+//@   modifies nothing
+
+//@ func (*RequestCommand).FailureResponse
+//@   props C11
+//@   requires cmd != nil
+//@   ensures  result != nil && fresh(result)
+//@   ensures  result.ID == cmd.ID && result.Method == cmd.Method
+//@   ensures  result.From == cmd.To && result.To == senderOf(cmd.Envelope)
+//@   ensures  result.PP == Node{} && result.Metadata == nil
+//@   ensures  result.Status == CommandStatusFailure && result.Reason == reason
+//@   ensures  result.Resource == nil && result.Type == nil
+//@   ensures  validMethod(cmd.Method) ==> wfResponse(result)
+//@   modifies nothing
+
+//@ func (*Command).SetResource
+//@   props C11
+//@   requires cmd != nil && d != nil
+//@   ensures  result == cmd
+//@   ensures  cmd.Resource == d && cmd.Type != nil && *cmd.Type == mediaTypeOf(d)
+//@   modifies cmd.Resource, cmd.Type
+
+//@ func (*Message).Notification
+//@   props C11
+//@   requires msg != nil
+//@   ensures  result != nil && fresh(result)
+//@   ensures  result.ID == msg.ID && result.Event == event && result.Reason == nil
+//@   ensures  result.From == msg.To && result.To == senderOf(msg.Envelope)
+//@   ensures  result.PP == Node{} && result.Metadata == nil
+//@   ensures  validEvent(event) ==> wfNotification(result)
+//@   modifies nothing
+
+//@ func (*Message).FailedNotification
+//@   props C11
+//@   requires msg != nil
+//@   ensures  result != nil && fresh(result)
+//@   ensures  result.ID == msg.ID && result.Event == NotificationEventFailed && result.Reason == reason
+//@   ensures  result.From == msg.To && result.To == senderOf(msg.Envelope)
+//@   ensures  result.PP == Node{} && result.Metadata == nil
+//@   ensures  wfNotification(result)
+//@   modifies nothing
+
+//@ func (*URI).Path
+//@   props C11
+//@   requires u != nil
+//@   modifies nothing
+
+// The ping auto-reply (server and client builders): predicate and handler.
+// Stream invariant established by the receive path: a request command that
+// reaches a handler is non-nil, has a URI (kind discrimination requires it)
+// and a valid method (CommandMethod.UnmarshalText validates it).
+
+//@ func (*ServerBuilder).AutoReplyPings$1
+//@   props C11
+//@   requires cmd != nil && cmd.URI != nil
+//@   modifies nothing
+
+//@ func (*ServerBuilder).AutoReplyPings$2
+//@   props C11
+//@   requires cmd != nil && validMethod(cmd.Method) && s != nil
+//@   modifies nothing
+
+//@ func (*ClientBuilder).AutoReplyPings$1
+//@   props C11
+//@   requires cmd != nil && cmd.URI != nil
+//@   modifies nothing
+
+//@ func (*ClientBuilder).AutoReplyPings$2
+//@   props C11
+//@   requires cmd != nil && validMethod(cmd.Method) && s != nil
+//@   modifies nothing
